@@ -5,7 +5,7 @@
 //!
 //! netcorr --driver <exe> --seed <n> --n <count> [--corpus <dir>] [--report <file>] [--replay <script>]
 
-use harness::net::{history_oracles, run_with, NetGen};
+use harness::net::{history_oracles, order_oracles, run_with, NetGen};
 use std::io::Write;
 use std::process::{Command, Stdio};
 
@@ -96,6 +96,12 @@ fn main() {
             fails.push(l.to_string());
         } else if l.starts_with("netreplay-summary") {
             summary = l.to_string();
+        }
+    }
+    // the order oracle (C02) needs no model: every history is judged by it
+    for (name, _, trace) in &runs {
+        for f in order_oracles(trace) {
+            fails.push(format!("NETFAIL {} {f}", name.replace(' ', "_")));
         }
     }
     // programs whose hooks await several asks at once: outside the sequential protocol model, judged by
